@@ -151,3 +151,19 @@ Proof.
   - intros k Hk. change (BPB_NumFATs _) with 2 in Hk. assert (Hk' : k = 0 \/ k = 1) by lia. destruct Hk' as [->| ->]; apply list_eqb_eq; vm_compute; reflexivity.
   - intros H. vm_compute in H. discriminate.
 Qed.
+
+(** performing operations: what ANY history of interface calls leaves alone — the parsed boot sector (hence, with
+    C11_ops_spare_boot_sector, the first 512 bytes of the device: reserved bytes and boot code), the reserved upper bits
+    of the FAT32 entries, and every FAT entry that was neither free nor part of a chain (reserved entries, bad-cluster
+    marks, entries behind the last cluster) *)
+From Coq Require Import Relations.
+From PyFatV Require Import Proofs.BootSafe Proofs.Inside.
+Theorem C16_history_frame : forall s s', pre s -> clos_refl_trans st wstep s s' ->
+  s_h s' = s_h s /\ s_p s' = s_p s /\ s_hi s' = s_hi s /\ lenZ (s_fat s') = lenZ (s_fat s) /\
+  forall i, 0 <= i -> nthZ (s_fat s') i <> nthZ (s_fat s) i ->
+    2 <= i <= max_cluster s /\ (nthZ (s_fat s) i = 0 \/ used_val (ft s) (dmax s) (nthZ (s_fat s) i) = true).
+Proof.
+  intros s s' Hp H. destruct (history_J s s' Hp H) as (A1 & A2 & A3 & _ & _ & [L C] & _).
+  split; [exact A1|]. split; [exact A2|]. split; [exact A3|]. split; [exact L|exact C].
+Qed.
+Print Assumptions C16_history_frame.
